@@ -24,7 +24,7 @@ func runC33(x *simkit.Exec) {
 	// One worker per pool makes a worker handle several blocks in a row (errors remembered across items
 	// are only reachable that way); the order of its reads then follows Go map iteration inside thanos,
 	// so such runs are not bit-reproducible and violations are confirmed by repeated replays.
-	if x.Bool("sequentialWorkers", 1, 3) {
+	if x.Bool("sequentialWorkers", 1, 2) {
 		sc.cfg.fetchConc = 1
 	}
 	x.Sample = sc.describe()
@@ -33,17 +33,32 @@ func runC33(x *simkit.Exec) {
 		return
 	}
 	x.Nontrivial = ref.syncReads > 0 && len(ref.plans) > 0
-	points := make([]int, 0, ref.syncReads)
-	for k := 1; k <= ref.syncReads; k++ {
-		points = append(points, k)
-	}
+	// fail points: stratified over the classes of sync reads (listing, exists/get of meta.json, of
+	// deletion-mark.json, of no-compact-mark.json) so that the rarer classes are always represented
 	limit := 16
 	if x.Thorough() {
 		limit = 600
 	}
-	for len(points) > limit {
-		i := x.Draw("dropPoint", len(points))
-		points = append(points[:i], points[i+1:]...)
+	byClass := map[string][]int{}
+	for i, c := range ref.syncReadKinds {
+		byClass[c] = append(byClass[c], i+1)
+	}
+	classes := simkit.SortedKeys(byClass)
+	var points []int
+	for len(points) < limit {
+		progress := false
+		for _, c := range classes {
+			if len(byClass[c]) == 0 || len(points) >= limit {
+				continue
+			}
+			i := x.Draw("failPoint:"+c, len(byClass[c]))
+			points = append(points, byClass[c][i])
+			byClass[c] = append(byClass[c][:i], byClass[c][i+1:]...)
+			progress = true
+		}
+		if !progress {
+			break
+		}
 	}
 	for _, k := range points {
 		body := x.Bool("bodyFail", 1, 3)
